@@ -30,7 +30,10 @@ RULE = ('abstract baskets (1-6 sequences; lengths 0-200 biased to 0, 1, 59-61; n
         'first header); HISTORY stream: several write/read calls, in-place edits (data, id, reverse, str.replace, header, pop, the same '
         'BioSeq twice, order), fresh objects, colliding baskets/texts and mutation of returned objects inside one process, every '
         'observing step compared with the pure model on the current value; GFF reader-option stream: filt_fast (strings that do / do not '
-        'occur in the ##FASTA line, headers, feature lines), filt, default_ftype, comments=[] on written baskets and on foreign texts')
+        'occur in the ##FASTA line, headers, feature lines), filt, default_ftype, comments=[] on written baskets and on foreign texts; '
+        'sniffer stream: ids starting with the keywords the other formats\' sniffers look for (LOCUS, ORIGIN, STOCKHOLM, gff, sugar ...), '
+        'every cycle with fmt given and with content detection (path, neutral extension, StringIO, BytesIO); archive stream: '
+        'write(fname, archive=True|zip|tar|gztar|bztar|xztar) for every format, read() of the produced archive with and without fmt')
 TRUSTED = ['CPython text layer (open/TextIOWrapper universal newlines, StringIO), str.strip/lstrip/rstrip/split/upper/removeprefix, '
            're.match on IDPATTERN (modelled by a hand-written matcher, pinned to the pattern text and compared on adversarial '
            'headers), json.dump/json.load text layer (SJSON is modelled at tree level), dict insertion order, the OS appending '
@@ -44,7 +47,7 @@ ASSUMPTIONS = ['Python str restricted to Latin-1 code points; the claimed domain
 RES_NT = 'ACGTUNRYKM-.'
 RES_AA = 'ACDEFGHIKLMNPQRSTVWY*-X'
 IDCH = 'abcdefghijklmnopqrstuvwxyzABCDEFGHIJKLMNOPQRSTUVWXYZ0123456789_.-:/#=+[]()<>@!$%&^~{}?'
-ADV_IDS = ['sp:P69905', 'tr:A0A024R161', 'contig_ref:12', 'xref:1', 'emb:X1', 'dbj:D1', 'lcl:a', 'gb:x', 'sp|a|b', 'a;b', 'xgb:y', '>x', 'a,b', 'lcl|z', 'gb|', '#x', '//x', 'agb:', 'gb:gb:q', 'ref|NC_1.2|', 'None',
+ADV_IDS = ['LOCUS', 'locus_tag_0001', 'Locus7', 'LOCUS7', 'ORIGIN', 'STOCKHOLM', 'gff', 'sugar', 'sp:P69905', 'tr:A0A024R161', 'contig_ref:12', 'xref:1', 'emb:X1', 'dbj:D1', 'lcl:a', 'gb:x', 'sp|a|b', 'a;b', 'xgb:y', '>x', 'a,b', 'lcl|z', 'gb|', '#x', '//x', 'agb:', 'gb:gb:q', 'ref|NC_1.2|', 'None',
            'x>', 'tr|', 'a:b', 'emb|E1|nm', 'dbj|', '#=GF', '# STOCKHOLM', 'gbgb:w', 'g', 'sp', 'x|', ';', '|', ',', 'a b', '', None]
 
 
@@ -123,7 +126,7 @@ def kw_cases(rng, tier):
                     if i3 != s1[0]:
                         seqs.append([i3, rng.choice(res), rng.choice([None, i3 + ' ' + k + ' ' + k.upper()])])
                 rng.shuffle(seqs)
-                cases.append({'op': 'cycle', 'fmt': fmt, 'seqs': seqs, 'via': rng.choice(['str', 'str', 'path', 'sio'])})
+                cases.append({'op': 'cycle', 'fmt': fmt, 'seqs': seqs, 'via': rng.choice(['str', 'path', 'sio', 'auto', 'auto-sio', 'auto-txt'])})
     for k in kws:
         res = kw_res(k) or ['ACGU']
         i1, i2 = rng.choice(kw_ids(k)), rng.choice(kw_ids(k))
@@ -553,6 +556,40 @@ def gffopt_cases(rng, tier):
     return cases
 
 
+SNIFF_IDS = ['LOCUS', 'locus', 'locus_tag_0001', 'Locus7', 'LOCUS7', 'LOCUS_A1', 'ORIGIN', 'origin', 'FEATURES', 'STOCKHOLM', 'Stockholm',
+             'gff', 'gff-version', 'sugar', 'sugarJSON', 'JSON', 'qseqid', 'query', 'BLASTN', 'target']
+
+
+def sniffer_cases(rng, tier):
+    """ids (first and later in the file) that start with the keywords the OTHER formats' sniffers look for at line start;
+    every write->read cycle both with the format given and with content detection (path, neutral extension, handles)"""
+    cases = []
+    for fmt in FMTS:
+        for i in SNIFF_IDS:
+            for via in (['str', 'auto', 'auto-sio', 'auto-bytes', 'auto-txt'] if tier == 'thorough' else ['str', rng.choice(['auto', 'auto-txt']), rng.choice(['auto-sio', 'auto-bytes'])]):
+                seqs = [[i, rng.choice(['ACGU-', 'MKV*', 'acgt']), None], ['s2', 'ACGT', None]]
+                if rng.random() < 0.5:
+                    seqs.reverse()
+                cases.append({'op': 'cycle', 'fmt': fmt, 'seqs': seqs, 'via': via})
+    return cases
+
+
+ARCHIVES = [True, 'zip', 'tar', 'gztar', 'bztar', 'xztar']
+
+
+def archive_cases(rng, tier):
+    """write(fname, archive=A) for every writable format, then read() of the archive file that was produced"""
+    cases = []
+    for fmt in FMTS:
+        for a in ARCHIVES:
+            for given in (True, False):
+                reps = 3 if tier == 'thorough' else 1
+                for _ in range(reps):
+                    seqs = g_seqs(rng, fmt=fmt) if rng.random() < 0.6 else [['a1', 'ACGT', None], ['locus_b', 'mkv*', 'locus_b desc']]
+                    cases.append({'op': 'archive', 'fmt': fmt, 'archive': a, 'fmt_given': given, 'seqs': seqs})
+    return cases
+
+
 def detectable(fmt, text):
     """texts for which read() without fmt is expected to find the format: the sniffers look at the first 50 / 11 / 100
     characters (fasta.py:13, stockholm.py:16, gff.py:20)"""
@@ -567,7 +604,7 @@ def detectable(fmt, text):
 
 def gen_cases(rng, tier):
     cases = []
-    vias = ['str', 'str', 'path', 'ext', 'handle', 'sio', 'auto']
+    vias = ['str', 'str', 'path', 'ext', 'handle', 'sio', 'auto', 'auto-sio', 'auto-bytes', 'auto-txt']
     n_cycle, n_app, n_read = (12000, 2000, 9000) if tier == 'thorough' else (550, 120, 500)
     # a few fixed regression shapes
     for fmt in FMTS:
@@ -584,6 +621,8 @@ def gen_cases(rng, tier):
             cases.append({'op': 'read', 'fmt': 'fasta', 'text': pre + '>seq1 d\nACGT\nAC\n>seq2\nMKV*\n', 'via': via})
     cases += history_cases(rng, tier)
     cases += gffopt_cases(rng, tier)
+    cases += sniffer_cases(rng, tier)
+    cases += archive_cases(rng, tier)
     for _ in range(n_cycle):
         fmt = rng.choice(FMTS)
         c = {'op': 'cycle', 'fmt': fmt, 'seqs': g_seqs(rng, fmt=fmt), 'via': rng.choice(vias)}
@@ -694,8 +733,8 @@ class _Tmp:
 
 
 def do_write(b, fmt, via, d, mode='w', name='f'):
-    if via in ('str', 'sio'):
-        if via == 'str':
+    if via in ('str', 'sio', 'auto-sio', 'auto-bytes', 'auto-txt'):
+        if via != 'sio':
             return b.tofmtstr(fmt)
         f = io.StringIO()
         b.write(f, fmt)
@@ -721,6 +760,13 @@ def do_read(text, fmt, via, d):
             return read(io.StringIO(text), fmt)
         if via == 'auto-sio':
             return read(io.StringIO(text))
+        if via == 'auto-bytes':
+            return read(io.BytesIO(text.encode('latin-1')))
+        if via == 'auto-txt':       # a file name whose extension says nothing about the format
+            p = d.path('r.txt')
+            with open(p, 'w', newline='') as f:
+                f.write(text)
+            return read(p)
         p = d.path('r.' + EXT[fmt])
         with open(p, 'w', newline='') as f:
             f.write(text)
@@ -773,6 +819,24 @@ def impl_gffopt(case, d):
     return [t1, objs(rd(t1))]
 
 
+def impl_archive(case, d):
+    from sugar import read
+    fmt, a = case['fmt'], case['archive']
+    b0 = mk_basket(case['seqs'])
+    t1 = b0.tofmtstr(fmt)
+    fn = d.path('x.' + EXT[fmt])
+    before = set(os.listdir(d.d))
+    b0.write(fn, fmt, archive=a)
+    new = sorted(set(os.listdir(d.d)) - before)
+    assert len(new) == 1 and new[0].startswith('x.' + EXT[fmt] + '.'), 'archive file(s) produced: %r' % (new,)
+    p = os.path.join(d.d, new[0])
+    try:
+        o = read(p, fmt) if case.get('fmt_given') else read(p)
+    except json.JSONDecodeError as e:
+        raise ValueError(str(e))
+    return [canon_text(fmt, t1), objs(o)]
+
+
 def impl(case):
     op, fmt = case['op'], case['fmt']
     via = case.get('via', 'str')
@@ -781,6 +845,8 @@ def impl(case):
             return impl_history(case, d)
         if op == 'gffopt':
             return impl_gffopt(case, d)
+        if op == 'archive':
+            return impl_archive(case, d)
         if op == 'cycle':
             b0 = mk_basket(case['seqs'])
             if case.get('fts'):
@@ -844,6 +910,8 @@ def _opt_term(case):
 
 
 def model_term(case):
+    if case['op'] == 'archive':
+        return 'out (%s)' % _term(3, case['fmt'], seqs=case['seqs'])
     if case['op'] == 'gffopt':
         return 'out (%s)' % _opt_term(case)
     if case['op'] == 'history':
@@ -889,6 +957,8 @@ def valid_case(case):
             elif st != ['fresh']:
                 return False
         return ok
+    if case.get('op') == 'archive':
+        return case.get('fmt') in FMTS and case.get('archive') in ARCHIVES and isinstance(case.get('seqs'), list) and all(len(x) == 3 and x[1] is not None for x in case['seqs'])
     if case.get('op') == 'gffopt':
         o = case.get('opts')
         if not isinstance(o, dict) or ('text' not in case and 'seqs' not in case):
@@ -984,6 +1054,13 @@ def spec_history(case, got):
 def spec(case, got):
     if case['op'] == 'history':
         return spec_history(case, got)
+    if case['op'] == 'archive':
+        if isinstance(got, dict):
+            return 'archive=%r: raised %s inside the claimed domain' % (case['archive'], got.get('e'))
+        want = [[i, d.upper()] for i, d, h in case['seqs']]
+        if [x[:2] for x in got[1]] != want:
+            return 'archive=%r: read %r, the basket holds %r' % (case['archive'], [x[:2] for x in got[1]], want)
+        return None
     if case['op'] == 'gffopt':
         if isinstance(got, dict):
             return 'raised %s inside the claimed domain (options %r)' % (got.get('e'), case['opts'])
@@ -1046,6 +1123,8 @@ def spec(case, got):
 def _marks(case, got):
     op, fmt = case['op'], case['fmt']
     ms = []
+    if op == 'archive':
+        return ['archive-%s' % case['archive'], 'fmt-given' if case.get('fmt_given') else 'fmt-detected']
     if op == 'gffopt':
         o = case['opts']
         ms = ['opt-' + k for k in ('filt_fast', 'filt', 'default_ftype', 'comments') if o.get(k)]
@@ -1128,7 +1207,7 @@ def nontrivial(case, got):
 
 def histkey(case, got):
     ks = ['op=' + case['op'], 'fmt=' + case['fmt'], 'raised' if isinstance(got, dict) else 'returned']
-    if case['op'] == 'gffopt':
+    if case['op'] in ('gffopt', 'archive'):
         pass
     elif case['op'] == 'history':
         ks.append('steps=%d' % len(case['steps']))
